@@ -128,7 +128,166 @@ fn static_checks(lines: &[Line], cfg: &CfgView, lk: &Link, ctx: &mut Ctx, out: &
             );
         }
     }
+    // (iv') the same with an own, deliberately simple propagation of the constant in a7: an ecall
+    // that only the numbers 10 or only the number 93 can reach (over paths that do not run through
+    // such an ecall) ends the program in every execution, whatever the analyzer knows about it
+    for li in definite_exits(lines) {
+        if let Some(k) = lk.line_nodes.get(&li).and_then(|v| v.last().copied()) {
+            let a = &cfg.nodes[k];
+            ctx.fact("definite_exits_checked", 1);
+            if a.is_ecall && !a.nexts.is_empty() {
+                out.push(
+                    Violation::new(format!(
+                        "ecall {} (line {}) is reached with a7 = 10 only or with a7 = 93 only, yet it has successors {:?}\n{text}",
+                        describe(a.idx),
+                        li + 1,
+                        a.nexts
+                    ))
+                    .with("clause", "iv-exit-has-successor")
+                    .with("by", "own-constant-propagation"),
+                );
+            }
+        }
+    }
     let _ = n;
+}
+
+/// Model line indices of the ecalls that end the program in every execution, by a forward
+/// propagation of the set of constants a7 can hold (None = anything). Code the program entry does
+/// not reach leaves anything in a7 (values may or may not flow out of dead code), `li a7, c` and
+/// `addi a7, zero, c` give a constant, every other write to a7 and every call give "anything".
+/// Exits found are cut and the propagation is repeated until no further exit appears.
+pub fn definite_exits(lines: &[Line]) -> BTreeSet<usize> {
+    use std::collections::BTreeMap;
+    let ins: Vec<(usize, &Ins)> = lines.iter().enumerate().filter_map(|(k, l)| if let Line::Ins(i) = l { Some((k, i)) } else { None }).collect();
+    let n = ins.len();
+    // label -> index of the next instruction
+    let mut label_at: BTreeMap<&str, usize> = BTreeMap::new();
+    let mut next_ins = 0;
+    for (k, l) in lines.iter().enumerate() {
+        while next_ins < n && ins[next_ins].0 < k {
+            next_ins += 1;
+        }
+        if let Line::Label(name) = l {
+            label_at.insert(name.as_str(), next_ins);
+        }
+    }
+    let target = |i: &Ins| label_operand(i).and_then(|l| label_at.get(l.as_str()).copied()).filter(|t| *t < n);
+    let mut exits: BTreeSet<usize> = BTreeSet::new();
+    loop {
+        // successors under the current set of exits
+        let succ = |k: usize| -> Vec<usize> {
+            let i = ins[k].1;
+            let fall = if k + 1 < n { vec![k + 1] } else { vec![] };
+            match i.mn.as_str() {
+                "ecall" if exits.contains(&k) => vec![],
+                "ret" | "uret" | "jr" | "jalr" => vec![],
+                "j" => target(i).into_iter().collect(),
+                "jal" | "call" if is_call(i) => fall,
+                "jal" => target(i).into_iter().collect(),
+                m if m.starts_with('b') && label_operand(i).is_some() => {
+                    // a branch that compares a register with itself (or zero with zero) goes one way only
+                    let regs: Vec<u8> = i.ops.iter().filter_map(|o| if let Opd::R(r) = o { Some(*r) } else { None }).collect();
+                    let same = match regs.as_slice() {
+                        [a, b] => a == b,
+                        [a] => *a == 0,
+                        _ => false,
+                    };
+                    let always = same && matches!(m, "beq" | "bge" | "bgeu" | "ble" | "bleu" | "beqz" | "bgez" | "blez");
+                    let never = same && !always;
+                    let mut v = if always { vec![] } else { fall };
+                    if !never {
+                        v.extend(target(i));
+                    }
+                    v
+                }
+                _ => fall,
+            }
+        };
+        // in[k]: None = anything, Some(set) = only these constants (empty = not reached yet)
+        let mut inn: Vec<Option<BTreeSet<i64>>> = vec![Some(BTreeSet::new()); n];
+        let mut has_pred = vec![false; n];
+        for k in 0..n {
+            for t in succ(k) {
+                has_pred[t] = true;
+            }
+        }
+        if n > 0 {
+            inn[0] = None; // the program starts with anything in a7
+        }
+        for k in 0..n {
+            if !has_pred[k] {
+                inn[k] = None; // dead code: a7 holds anything
+            }
+            // a function is entered with whatever its callers left in a7
+            if is_call(ins[k].1) {
+                if let Some(t) = target(ins[k].1) {
+                    inn[t] = None;
+                }
+            }
+        }
+        // what the program entry reaches under the current exits; everything else is dead code and
+        // is taken to leave anything in a7 (no assumption about how the analyzer treats dead code)
+        let mut live = vec![false; n];
+        {
+            let mut stack = if n > 0 { vec![0usize] } else { vec![] };
+            while let Some(k) = stack.pop() {
+                if std::mem::replace(&mut live[k], true) {
+                    continue;
+                }
+                stack.extend(succ(k));
+                if is_call(ins[k].1) {
+                    stack.extend(target(ins[k].1));
+                }
+            }
+        }
+        let out_of = |k: usize, v: &Option<BTreeSet<i64>>| -> Option<BTreeSet<i64>> {
+            let i = ins[k].1;
+            if !live[k] {
+                return None;
+            }
+            let writes_a7 = crate::arch::rw(i).1 & (1 << 17) != 0;
+            match (i.mn.as_str(), i.ops.as_slice()) {
+                ("li", [Opd::R(17), Opd::I(c)]) => Some([*c].into_iter().collect()),
+                ("addi", [Opd::R(17), Opd::R(0), Opd::I(c)]) => Some([*c].into_iter().collect()),
+                _ if is_call(i) => None,
+                _ if writes_a7 => None,
+                _ => v.clone(),
+            }
+        };
+        let mut changed = true;
+        while changed {
+            changed = false;
+            for k in 0..n {
+                let o = out_of(k, &inn[k]);
+                for t in succ(k) {
+                    let merged = match (&inn[t], &o) {
+                        (None, _) | (_, None) => None,
+                        (Some(a), Some(b)) => Some(a.union(b).copied().collect::<BTreeSet<i64>>()),
+                    };
+                    if merged != inn[t] {
+                        inn[t] = merged;
+                        changed = true;
+                    }
+                }
+            }
+        }
+        let mut fresh: Vec<usize> = vec![];
+        for k in 0..n {
+            if ins[k].1.mn == "ecall" && !exits.contains(&k) {
+                if let Some(set) = &inn[k] {
+                    if set.len() == 1 && (set.contains(&10) || set.contains(&93)) {
+                        fresh.push(k);
+                    }
+                }
+            }
+        }
+        if fresh.is_empty() {
+            return exits.iter().filter(|k| live[**k]).map(|k| ins[*k].0).collect();
+        }
+        // one at a time: the values at the other candidates may have come over the edges behind this one
+        exits.insert(fresh[0]);
+    }
 }
 
 fn has_edge(cfg: &CfgView, lk: &Link, from: usize, to: usize) -> bool {
